@@ -103,7 +103,9 @@ class LazyRng(struct.PyTreeNode):
       return LazyRng(rng, suffix)
 
   def clear_suffix(self):
-    key = self.rng
+    # fold the suffix into the key instead of dropping it: scopes with
+    # different paths must keep different keys
+    key = self.as_jax_rng()
     return LazyRng(key, ())
 
 
